@@ -1,4 +1,6 @@
 import DracoProofs.RobustValid
+import DracoProofs.SeqStream
+import DracoProofs.KdTreeValid
 /-
   C03 — a successfully decoded geometry is structurally valid.
 
@@ -15,16 +17,43 @@ import DracoProofs.RobustValid
 namespace Draco.C03
 open Draco Draco.Robust
 
-/-- **C03 (model, full strength).** For every byte string, decoder state and option set: when
-    the decoder reports success the returned geometry is structurally valid. No hypothesis on
-    the input — corrupted streams that are still accepted are included. -/
+/-- **C03 for the dispatcher with arbitrary body decoders.** `decodeStreamWith eb kd` is
+    `Decoder::DecodeBufferToGeometry`: header, version gate, metadata, then the sequential point cloud /
+    mesh decoder of every bitstream version (modelled here), or the body decoder `eb` (Edgebreaker) / `kd`
+    (kd-tree).  Whenever the bodies only return valid geometries, every accepted stream — corrupted ones
+    included — yields a valid geometry. -/
+theorem decode_ok_valid_with (eb kd : DecOpts → DecM Geometry) (opts : DecOpts)
+    (heb : ∀ s g s', eb opts s = (some g, s') → g.valid = true)
+    (hkd : ∀ s g s', kd opts s = (some g, s') → g.valid = true)
+    (s s' : DSt) (r : DecodeResult) (h : decodeStreamWith eb kd opts s = (some r, s')) :
+    r.geometry.valid = true :=
+  decodeStreamWith_post eb kd opts heb hkd s r s' h
+
+/-- **C03 for the sequential decoders (full strength, no hypothesis).** `decodeGeometrySeq` = the complete
+    decoder with the Edgebreaker / kd-tree bodies rejected: for every byte string, state and option set an
+    accepted stream yields a valid geometry (sequential point cloud and mesh decoders, every bitstream
+    version 1.1 … 2.3, with or without `SetSkipAttributeTransform`). -/
 theorem decode_ok_valid (opts : DecOpts) (s s' : DSt) (r : DecodeResult)
-    (h : decodeGeometry opts s = (some r, s')) : r.geometry.valid = true :=
-  decodeGeometry_post opts s r s' h
+    (h : decodeGeometrySeq opts s = (some r, s')) : r.geometry.valid = true :=
+  decode_ok_valid_with _ _ opts (fun _ _ _ h => (failWith_ok h).elim) (fun _ _ _ h => (failWith_ok h).elim) s s' r h
+
+/-- … and therefore for the complete decoder `decodeGeometry` on every stream whose header announces a
+    sequential method -/
+theorem decode_seq_stream_ok_valid (opts : DecOpts) (s s' : DSt) (r : DecodeResult) (hs : IsSeqStream s)
+    (h : decodeGeometry opts s = (some r, s')) : r.geometry.valid = true := by
+  rw [decodeGeometry_eq_seq opts s hs] at h
+  exact decode_ok_valid opts s s' r h
+
+/-- **C03 for the complete decoder, partial:** the kd-tree body is discharged by `Kd.decodeKdGeometry_valid`;
+    what is missing is the corresponding theorem about the Edgebreaker body, kept as the hypothesis `heb`. -/
+theorem decode_all_ok_valid_partial (opts : DecOpts)
+    (heb : ∀ s g s', Eb.decodeEdgebreaker opts s = (some g, s') → g.valid = true)
+    (s s' : DSt) (r : DecodeResult) (h : decodeGeometry opts s = (some r, s')) : r.geometry.valid = true :=
+  decode_ok_valid_with _ _ opts heb (fun s g s' hk => Kd.decodeKdGeometry_valid opts s s' g hk) s s' r h
 
 /-- the same for the entry state used by the driver (`Decoder::Decode…FromBuffer` on `bs`) -/
 theorem decode_bytes_ok_valid (opts : DecOpts) (bs : Bytes) (s' : DSt) (r : DecodeResult)
-    (h : decodeGeometry opts { rest := bs } = (some r, s')) : r.geometry.valid = true :=
+    (h : decodeGeometrySeq opts { rest := bs } = (some r, s')) : r.geometry.valid = true :=
   decode_ok_valid opts _ s' r h
 
 /-- value index a point is mapped to (`PointAttribute::mapped_index`) -/
@@ -83,18 +112,18 @@ set_option maxRecDepth 8000
 open DecM
 
 /-- the hypothesis of `decode_ok_valid` is satisfiable: the point cloud decodes -/
-example : ∃ r s', decodeGeometry {} { rest := pcStream } = (some r, s') ∧ r.geometry.numPoints = 2 ∧
+example : ∃ r s', decodeGeometrySeq {} { rest := pcStream } = (some r, s') ∧ r.geometry.numPoints = 2 ∧
     r.geometry.atts.length = 1 := by
-  simp +decide [pcStream, decodeGeometry, decodeHeader, decodePointAttributesSeq, decodeSequentialAttributes,
+  simp +decide [pcStream, decodeGeometrySeq, decodeStreamWith, decodeSequentialAttributesV, decodeHeader, decodePointAttributesSeq, decodeSequentialAttributes,
     decodeAttDescs, bind, DecM.andThen, DecM.version, DecM.setVersion, DecM.varint, DecM.lift, decVarint, decVarintAux,
     varintMaxDepth, bsVersion, DecM.require, DecM.ret, DecM.remaining, DecM.alloc, DecM.declare, replicateM', mapM',
     rdU8, rdU16, rdI32, rdU32, readU8, readLE, leValue, pure, DecM.bytes, readBytes, dataTypeLength, AttDesc.toAttribute,
     Generated.geometryAttribute_NAMED_ATTRIBUTES_COUNT, Generated.DT_TYPES_COUNT, toSigned, toUnsigned]
 
 /-- … and so does the mesh -/
-example : ∃ r s', decodeGeometry {} { rest := meshStream } = (some r, s') ∧
+example : ∃ r s', decodeGeometrySeq {} { rest := meshStream } = (some r, s') ∧
     r.geometry.faces = [(0, 1, 2)] ∧ r.geometry.numPoints = 3 := by
-  simp +decide [meshStream, decodeGeometry, decodeHeader, decodeSeqConnectivity, decodePointAttributesSeq,
+  simp +decide [meshStream, decodeGeometrySeq, decodeStreamWith, decodeSequentialAttributesV, decodeHeader, decodeSeqConnectivity, decodePointAttributesSeq,
     decodeSequentialAttributes, decodeAttDescs, bind, DecM.andThen, DecM.version, DecM.setVersion, DecM.varint, DecM.lift,
     decVarint, decVarintAux, varintMaxDepth, bsVersion, DecM.require, DecM.ret, DecM.remaining, DecM.alloc, DecM.declare,
     replicateM', mapM', rdU8, rdU16, rdU32, readU8, readLE, leValue, pure, DecM.bytes, readBytes, dataTypeLength,
@@ -102,8 +131,8 @@ example : ∃ r s', decodeGeometry {} { rest := meshStream } = (some r, s') ∧
 
 /-- the face-index check is what makes the theorem true: the stream whose face refers to point
     200 of 3 is rejected -/
-example : (decodeGeometry {} { rest := meshStreamBadIndex }).1 = none := by
-  simp [meshStreamBadIndex, decodeGeometry, decodeHeader, decodeSeqConnectivity, bind, DecM.andThen,
+example : (decodeGeometrySeq {} { rest := meshStreamBadIndex }).1 = none := by
+  simp [meshStreamBadIndex, decodeGeometrySeq, decodeStreamWith, decodeHeader, decodeSeqConnectivity, bind, DecM.andThen,
     DecM.version, DecM.setVersion, DecM.varint, DecM.lift, decVarint, decVarintAux, varintMaxDepth, bsVersion,
     DecM.require, DecM.ret, DecM.remaining, DecM.alloc, DecM.declare, replicateM', mapM', rdU8, rdU16, readU8, readLE,
     leValue, pure, DecM.bytes, readBytes, Generated.kDracoMeshBitstreamVersionMajor,
